@@ -301,7 +301,6 @@ Local Open Scope Z_scope.
 Inductive adefect :=
 | AIndexMinus1   (* allocate(0): TabFree[sz-1] / search_binary(0) = -1 *)
 | ATooBig        (* search_binary throws GivError *)
-| AHeaderPtr     (* resize(0, old, new) returns the BlocFreeList* itself, not ->data *)
 | ABadFree.      (* desallocate of an address that is not handed out *)
 
 Record astate := mkA {
@@ -378,8 +377,7 @@ Definition fl_desallocate (a : astate) (op : option nat) : astate * option adefe
 Definition fl_resize (tab : list Z) (a : astate) (src : option nat) (oldsize newsize : Z)
   : astate * option nat * option adefect :=
   match src with
-  | None => let '(a1, p, d) := _allocate tab a newsize in
-            (a1, p, match d with Some _ => d | None => Some AHeaderPtr end)
+  | None => _allocate tab a newsize            (* repaired (fix-5): returns ->data of the new block *)
   | Some p =>
     if newsize <=? oldsize then (a, Some p, None)
     else if newsize <=? nth (cls a p) tab 0 then (a, Some p, None)
